@@ -122,6 +122,11 @@ func (g *GcsEmu) Handler(w http.ResponseWriter, r *http.Request) {
 
 	switch r.Method {
 	case "DELETE":
+		if bucket == "" {
+			// without a bucket name the file store would resolve to (and remove) its root directory
+			g.gapiError(w, http.StatusBadRequest, "missing bucket name")
+			return
+		}
 		g.handleGcsDelete(ctx, w, bucket, object, conds)
 	case "GET":
 		if object == "" {
